@@ -73,6 +73,13 @@ CONTAINER_MUTATORS = {"append", "add", "update", "setdefault", "pop", "popitem",
                       "discard", "sort", "reverse", "difference_update", "intersection_update", "symmetric_difference_update"}
 
 
+# fields that say what an object denotes (the specification reads them): an object under
+# verification is an arbitrary *well-formed* one, so these stay as the constructor set them
+# from arbitrary arguments; writing them after construction is the frame analysis' business (C10)
+STRUCTURAL_FIELDS = {"_inners", "_inner", "_left", "_right", "_parameter", "_variable_names", "name", "value", "_coordinates",
+                     "_original_expression", "_point", "_variable_name"}
+
+
 def arbitrary_history(I, o):
     """An object that has been used before: every field that some method other than the
     constructor assigns (and that is not one of the documented memo fields, which the families
@@ -105,7 +112,7 @@ def arbitrary_history(I, o):
                         names.add(tgt.attr)
         cache[o.cls.name] = names
     for f in cache[o.cls.name]:
-        if f in o.fields:
+        if f in o.fields and f not in STRUCTURAL_FIELDS:
             o.fields[f] = Arb(f"{o.name}.{f}")
 
 
